@@ -115,6 +115,14 @@ def main(argv=None):
     return do_check(prop, tier, seed, runs, jobs)
 
 
+def kill_group(p):
+    import signal
+    try:
+        os.killpg(p.pid, signal.SIGKILL)
+    except (ProcessLookupError, PermissionError):
+        pass
+
+
 def worker_env(w):
     env = dict(os.environ)
     shift = int(os.environ.get("VERIF_HASHSEED_SHIFT", "0"))
@@ -164,7 +172,9 @@ def do_check(prop, tier, seed, runs, jobs):
     procs = []
     for w in range(jobs):
         cmd = [PYTHON, "-B", "-m", "sim.worker", "run", prop, tier, str(seed), str(w), str(jobs), str(runs), str(ndup)]
-        procs.append(subprocess.Popen(cmd, cwd=VERIF, env=worker_env(w), stdout=subprocess.PIPE, text=True))
+        # own session/process group per worker: stopping a worker also stops the children it forked
+        procs.append(subprocess.Popen(cmd, cwd=VERIF, env=worker_env(w), stdout=subprocess.PIPE, text=True,
+                                      start_new_session=True))
     results = {}
     dups = collections.defaultdict(list)
     harness_errors = []
@@ -180,7 +190,7 @@ def do_check(prop, tier, seed, runs, jobs):
         if time.time() - t0 > limit:
             harness_errors.append("wall clock limit %ds exceeded" % limit)
             for p in procs:
-                p.kill()
+                kill_group(p)
             break
         for key, _ in sel.select(timeout=1.0):
             line = key.fileobj.readline()
@@ -207,7 +217,7 @@ def do_check(prop, tier, seed, runs, jobs):
             # the verdict is already decided: do not spend the budget minimising the same failure over and over
             stopped_early = True
             for p in procs:
-                p.terminate()
+                kill_group(p)
             break
     for w, p in enumerate(procs):
         rc = p.wait()
